@@ -426,7 +426,12 @@ func unhex(h string) string {
 // corrupt injects invalid UTF-8 into s.
 func corrupt(s string, rng *rand.Rand) string {
 	b := []byte(s)
-	bad := [][]byte{{0xff}, {0xc0}, {0xe2, 0x82}, {0xf0, 0x9f}, {0x80}, {0xed, 0xa0, 0x80}}
+	// every class of malformed sequence: stray continuation and impossible bytes, lead bytes of each
+	// width alone and cut short (0xEF 0xBF is the head of U+FFFD itself), overlong forms, surrogates,
+	// beyond U+10FFFF - and a well-formed U+FFFD, which must keep its three bytes
+	bad := [][]byte{{0xff}, {0xc0}, {0xe2, 0x82}, {0xf0, 0x9f}, {0x80}, {0xed, 0xa0, 0x80},
+		{0xef}, {0xef, 0xbf}, {0xe0}, {0xe0, 0xa0}, {0xf4, 0x90}, {0xc1, 0x81}, {0xf8}, {0xfe}, {0xed, 0xbf, 0xbf},
+		{0xef, 0xbf, 0xbd}, {0xf0, 0x9f, 0x98}, {0xc3}, {0xdf}, {0xf4}, {0xe0, 0x80, 0x80}}
 	for k := 1 + rng.Intn(2); k > 0; k-- {
 		i := rng.Intn(len(b) + 1)
 		x := bad[rng.Intn(len(bad))]
